@@ -32,7 +32,7 @@ var Check = &vrt.Check{
 	Assumptions: []string{
 		"a cut delivers exactly k bytes to the reader, then both ends see EOF/closed; bytes of the opposite direction still in flight are lost",
 		"receiving policies are accept/defer only, so a reject always means the receiver already holds the message (dedup by MID)",
-		"in-memory reference mailboxes; the directory-mailbox leg runs when the mailbox check package provides its storage-fault helper",
+		"both the in-memory reference handler and the real directory mailbox (on /dev/shm, fresh DirHandler instances per session) are exercised; the directory leg's storage error is a genuine RLIMIT_FSIZE partial write + EFBIG",
 	},
 	Plan:            plan,
 	Run:             run,
@@ -58,6 +58,15 @@ func plan(seed int64, tier string) []vrt.Case {
 			cs = append(cs, vrt.Case{ID: fmt.Sprintf("cuts-s%d-%d", s, sh), Params: vrt.MustParams(params{Seed: seed, Kind: "cuts", Scenario: s, Shard: sh, Shards: shards}), TimeoutS: 900})
 		}
 		cs = append(cs, vrt.Case{ID: fmt.Sprintf("fail-s%d", s), Params: vrt.MustParams(params{Seed: seed, Kind: "fail", Scenario: s}), TimeoutS: 600})
+	}
+	ndir := 2
+	if tier == "thorough" {
+		ndir = 12
+	}
+	for s := 0; s < ndir; s++ {
+		for sh := 0; sh < shards; sh++ {
+			cs = append(cs, vrt.Case{ID: fmt.Sprintf("dir-s%d-%d", s, sh), Params: vrt.MustParams(params{Seed: seed, Kind: "dir", Scenario: s, Shard: sh, Shards: shards}), TimeoutS: 900})
+		}
 	}
 	per := 25
 	for i := 0; i < nhist; i += per {
@@ -119,6 +128,8 @@ func run(c vrt.Case) vrt.Obs {
 		}
 	}
 	switch p.Kind {
+	case "dir":
+		runDir(&o, p)
 	case "cuts", "fail":
 		r := vrt.Rand(p.Seed, "c02", p.Scenario)
 		sc, err := b2fx.GenSmallScenario(r, 7, true)
